@@ -310,7 +310,11 @@ func (c *client) SendBatch(ctx context.Context, batch []hrpc.Call) (
 		// for their responses in the same order.
 		cAndRs := make([]clientAndRPCs, 0, len(rpcByClient))
 		for client, rpcs := range rpcByClient {
-			client.QueueBatch(ctx, rpcs)
+			// (if the send queue of the region client is busy, stop waiting
+			// for it when none of these calls is waited for anymore)
+			qctx, release := contextOfCalls(ctx, rpcs)
+			client.QueueBatch(qctx, rpcs)
+			release()
 			cAndRs = append(cAndRs, clientAndRPCs{client, rpcs})
 		}
 
